@@ -235,4 +235,14 @@ Definition law_triage_sound : Prop := forall a b c, triage a b c <> 0 -> triage 
     exact orientations do not agree *)
 Definition law_tangent_sound : Prop := forall a b c d, tangent a b c d = true ->
   shared point peq a b c d = false /\ four_agree point sign a b c d = false.
+(** cyclic-order law of OrderedCCW for four rays r,u,v,w around o (used only for
+    AngleContainsVertex property (3)): if u,v,w are met in this order sweeping CCW, the wedge
+    (u,w] is the disjoint union of (u,v] and (v,w].  It holds for the rays of any point
+    configuration in general position, hence for a consistent perturbed [sign] (C02 chirotope). *)
+Definition law_occw_split : Prop := forall r u v w o,
+  peq u o = false -> peq v o = false -> peq w o = false ->
+  peq u v = false -> peq v w = false -> peq u w = false ->
+  ordered_ccw point sign u v w o = true ->
+  Z.b2z (negb (ordered_ccw point sign r u w o)) =
+  Z.b2z (negb (ordered_ccw point sign r u v o)) + Z.b2z (negb (ordered_ccw point sign r v w o)).
 End InterfaceLaws.
